@@ -13,19 +13,19 @@ CHECKS = {
          "Source/destination pairs over a shared 8-name universe (incl. two dot-only/dot-leading names) so that every type pair collides x {dir-contents, always-replace, wildcards, trailing separator, nested not-yet-existing dst, non-directory source spelled 'x/.', directory onto a non-directory}; all 49 (src type, dst type, outcome) classes are observed. Where the statement is silent every outcome is accepted and counted. Held on the executions observed.",
          "Trusts the overlay model in c15.go (calibrated against the repository's copy tests).", "DESIGN.md §5 C15"),
  "C17": ("exploration", "runtime monitor: archive/tar reader over WriteTar's output compared member by member with the independently predicted view; independent round trip through GNU tar extraction and snapshot comparison",
-         "Generated trees (as C01, names >100 bytes, non-ASCII) x {unfiltered, include, exclude, both} x {on-disk FS, synthetic FS, SubDirFS}. Views affected by K1 are not judged. Held on the executions observed.",
+         "Generated trees (as C01, names >100 bytes, non-ASCII) x {unfiltered, include, exclude, both} x {on-disk FS, synthetic FS, SubDirFS with one or two sub-roots in prefix relation}; attribute names holding '=' and '%'. Views affected by K1 are not judged. Held on the executions observed.",
          "Trusts archive/tar, GNU tar 1.34 and the snapshot walker; mtime to the second.", "DESIGN.md §5 C17"),
  "C18": ("exploration", "runtime differential monitor: FollowLinks result vs an independent chroot-style resolver (40-link limit) for coverage, order, prefix-freeness and root collapse; Walk-call step bound for termination; end-to-end transfer with FollowPaths and re-resolution in the copy",
-         "Link graphs (chains incl. 38-43 links, cycles, self loops, growing cycles, '..' beyond the root, dangling, absolute) x request lists (shared prefixes, wildcards, missing paths). Termination decided by a step bound on FS.Walk calls, not by time. Held on the executions observed; known findings: lexically cleaned link targets (K2), middle wildcard ending in a link (K8), resolved target read as a pattern (K9).",
+         "Link graphs (chains incl. 38-43 links, 21-25 two-link chains under one wildcard, cycles, self loops, growing cycles, '..' beyond the root, dangling, absolute) x request lists (shared prefixes, wildcards, missing paths). Termination decided by a step bound on FS.Walk calls, not by time. Held on the executions observed; known findings: lexically cleaned link targets (K2), middle wildcard ending in a link (K8), resolved target read as a pattern (K9).",
          "Trusts the reference resolver in internal/refs/resolver.go; wildcard requests: result shape, termination, and end-to-end presence of every match reached through real directories only.", "DESIGN.md §5 C18"),
  "C20": ("exploration", "runtime monitor: value round trips across the hand-optimised codec and the generic protobuf runtime in both directions, framing through util.NewProtoStream with fragmenting readers, aliasing monitor (read buffers poisoned after each RecvMsg), panic capture and allocation accounting (runtime.MemStats) on arbitrary inputs; Go native fuzz targets as an extra workload generator",
-         "Generated and mutated Stat/Packet values, packet sequences read back under 60 fragmentations incl. 1-byte reads, empty and >32 KiB packets, cut streams, arbitrary byte strings and frame streams (incl. a 4 GiB announcement in a memory-limited sub-process). Held on the executions observed; known finding: invalid UTF-8 names are rejected by the generic runtime.",
+         "Generated and mutated Stat/Packet values, packet sequences read back under 60 fragmentations incl. 1-byte reads, empty and >32 KiB packets, cut streams, arbitrary byte strings and frame streams (incl. a 4 GiB announcement in a memory-limited sub-process), valid non-canonical encodings, 24 streams received at once in one process. Held on the executions observed; known finding: invalid UTF-8 names are rejected by the generic runtime.",
          "Trusts the independent field-wise comparator and reference framer in internal/codec; allocation measured single-threaded per child with repeat-and-minimum to damp GC noise.", "DESIGN.md §5 C20"),
  "C08": ("exploration", "Go race detector (halt_on_error) + overlap detector inside the harness stream (in-flight counters with seeded dwell) + outcome comparison across schedules of the same case; the quick workloads of the other transfer checks (fault plans, metadata-only, histories, copy, tar) repeated under the race detector",
          "Each fixed (source of 100-400 multi-chunk files, prior destination) case is run under schedules drawn from stream capacity x per-operation delays in stream calls, source reads and callbacks x GOMAXPROCS; outcomes (dest, REQ set, notifications with digests) must equal the reference schedule's up to the hard-link exception; any race report or overlapping SendMsg/RecvMsg on one endpoint is a violation. Held on the schedules observed (distinct interleaving fingerprints are counted).",
          "Only interleavings the Go runtime produced in the run; the race detector sees executed paths only; harness code is itself race-free (it runs under the same detector).", "DESIGN.md §5 C08"),
  "C03": ("exploration", "runtime monitor in a chroot jail: hostile packet scripts sent over real pipes to a receiver process; before/after snapshot (inode, mode, owner, mtime, ctime, bytes, xattrs) of everything outside dest; independent stream specification decides which scripts are malformed and which entries must not have been applied",
-         "Generated hostile scripts (every malformation class the statement lists, at every position of a valid STAT sequence) against destinations full of outward symlinks, in normal/merge/metadata-only mode. Containment is checked on every script (also when the receiver crashes), rejection and not-applied-after-offence on malformed ones. Held on the executions observed.",
+         "Generated hostile scripts (every malformation class the statement lists, at every position of a valid STAT sequence; mode words with two type bits; hard links to inodes shared with the outside) against destinations full of outward symlinks, in normal/merge/metadata-only mode. Containment is checked on every script (also when the receiver crashes), rejection and not-applied-after-offence on malformed ones. Held on the executions observed.",
          "Trusts chroot(2) and the snapshot walker; single attacker (the peer), no concurrent local attacker; receiver crash counts as a failed call.", "DESIGN.md §5 C03, §4.6"),
  "C04": ("fault_enumeration", "fault injection at every operation index of a fixed transfer + structural quiescence detector (goroutine stack sampling) for termination and leaks + C01 oracle for false success + follow-up clean transfer; SIGKILL of a receiver process over real pipes",
          "For a fixed 12-entry transfer every operation index of every fault class is enumerated (stream send/recv error and EOF on both endpoints, cancellation of either context, walk error, an entry vanishing between listing and lstat, read error at 5 offsets, hasher/notify error, SIGKILL of the receiver after k packets), plus sampled faults with >132 requests pending. Termination is decided structurally (teardown once, quiescence afterwards = violation), never by a timer. Held on the fault runs observed; plans whose operation was never reached are reported as not fired.",
@@ -37,13 +37,13 @@ CHECKS = {
          "STAT sequences (incl. fan-out of 350-900 files announced before the first answer) x prior destinations (incl. a directory of 140-400 entries that the sequence replaces by a looping / unenterable symlink) x DATA chunkings (1 B .. 1 MiB) x id interleavings x STAT/DATA races x early close x receiver options {rejecting Filter, unprivileged receiver}; REQ set compared with the identity model, final dest with the announced tree. Held on the sessions observed.",
          "Trusts the reference sender (refsend.go) to be conforming; identity model as C02.", "DESIGN.md §5 C07, §4.4"),
  "C11": ("exploration", "runtime monitor: STAT stream of the real Send over filtered views validated by an independent stream validator (order, parents, link targets), transfer into an empty dest compared with the reference-filtered source with re-canonicalised link groups, every regular file opened through the view",
-         "Trees with link groups straddling included/excluded paths x include/exclude/follow-path configurations x nested filter stacks (reference applied level by level). Known finding K1 triaged as in C10. Held on the executions observed.",
+         "Trees with link groups straddling included/excluded paths x include/exclude/follow-path configurations x nested filter stacks (reference applied level by level), a quarter of the levels with a Map that rewrites owner and time stamp. Known finding K1 triaged as in C10. Held on the executions observed.",
          "Reference filter as C10; follow-paths resolved by fsutil.FollowLinks itself (C18 checks it).", "DESIGN.md §5 C11"),
  "C13": ("exploration", "runtime differential monitor: snapshot(src) vs snapshot(dst) after fs.Copy under the statement's mask; option overrides evaluated independently (/bin/chmod for symbolic modes); change notifier calls recorded",
-         "Generated source trees (all types, link groups incl. special files, sockets and symlinks with several names, special bits, owners, ns mtimes, xattrs) x {whole tree, sub-directory, single file, single symlink} x option sets {chown, octal/symbolic mode, utime, xattr error handler, follow-links}. Held on the executions observed.",
+         "Generated source trees (all types, link groups incl. special files, sockets and symlinks with several names, special bits, owners, ns mtimes, xattrs) x {whole tree, sub-directory, single file, single symlink} x option sets {chown, octal/symbolic mode, utime, xattr error handler, follow-links} x destination {plain, set-group-id directory of a foreign group}. Held on the executions observed.",
          "Trusts the snapshot walker and /bin/chmod as evaluator of symbolic modes (both GNU and POSIX readings admitted where they differ); root.", "DESIGN.md §5 C13"),
  "C16": ("exploration", "runtime differential monitor: set of paths written by fs.Copy with include/exclude patterns vs naive reference filter vs fsutil.Walk with the same patterns; metadata of on-demand ancestors compared with the source directory",
-         "The trees and pattern grammar of C10, into empty and populated destinations (incl. type-conflicting obstacles at unselected paths, with and without always-replace), and as an ordinary user over trees with directories it may not list; K1 triaged as in C10. Held on the executions observed.",
+         "The trees and pattern grammar of C10 (a third with hard-link groups), into empty and populated destinations (incl. type-conflicting obstacles at unselected paths, with and without always-replace), and as an ordinary user over trees with directories it may not list; K1 triaged as in C10. Held on the executions observed.",
          "Reference filter as C10; root, and uid 1234 emulated by switching the effective uid/gid of the process.", "DESIGN.md §5 C16"),
  "C19": ("exploration", "runtime monitor: listing file decoded as little-endian length-prefixed records and compared with the STATs seen on the wire; dest minus listing compared with the projection of the source; REQ ids and notifications checked",
          "Trees (incl. listings of several 32 KiB chunks and a single stat larger than a chunk) x selectors x sources containing an entry named .fsutil-metadata x prior destinations holding a listing file/symlink/directory. Held on the executions observed.",
@@ -55,7 +55,7 @@ CHECKS = {
          "Generated edit histories (incl. single-field edits, unchanged re-syncs, DiffNone rounds, a non-idempotent rewriting Filter); requests must equal the set the identity model computes, untouched entries keep their inode and bytes, an unchanged re-sync sends no request and no notification. Held on the executions observed.",
          "Trusts the identity model (identityEqual/changedSet in the harness) incl. the encoded hard-link timing exception; root.", "DESIGN.md §5 C02"),
  "C05": ("exploration", "runtime monitor: every NotifyHashed call recorded and checked against a notification model (apply events to old snapshot == new snapshot; exactly-once per changed path; no unchanged path; deletes == top-most removed paths; digests recomputed from the stat on the wire and the bytes in dest)",
-         "Generated edit histories incl. pure directory metadata edits, adjacent deleted directories, subtree deletions, type swaps, out-of-order content completion. Held on the executions observed.",
+         "Generated edit histories incl. pure directory metadata edits, synthetic sources announcing more bytes than they send, adjacent deleted directories, subtree deletions, type swaps, out-of-order content completion. Held on the executions observed.",
          "Trusts the notification model in c05.go and the harness hasher; add vs modify not demanded; hard-link timing exception as in C02.", "DESIGN.md §5 C05"),
  "C09": ("exploration", "runtime differential monitor: callback sequences of Walk/WalkDir/FS.Walk(sub-target)/SubDirFS vs an independent recursive lstat listing sorted component-wise",
          "Generated trees over an adversarial name pool (bytes below and above '/', 255-byte names), all entry types, hard-link groups, depth<=6; every reported stat is compared field by field. Held on the executions observed.",
@@ -64,7 +64,7 @@ CHECKS = {
          "Generated (tree, include list, exclude list, map function) cases over sibling-confusable names and a pattern grammar; known finding K1 (moby/patternmatcher) is triaged by comparing with the incremental-unpruned reference. Held on the executions observed.",
          "Single-pattern matching is moby/patternmatcher's on both sides; where the statement is silent (map result on lazily emitted parents) every outcome is accepted.", "DESIGN.md §5 C10"),
  "C12": ("exploration", "runtime differential monitor: real Validator vs executable specification on exhaustively enumerated bounded sequences + random long ones; order axioms on all pairs/triples",
-         "Every sequence up to the length bound over a 30-path x {dir,file,delete} alphabet is executed against a fresh real Validator and compared (decision and rejection index) with a 15-line specification; ComparePath is compared with component-wise comparison and the strict-total-order axioms on all pairs/triples of an adversarial path alphabet. Held on the executions observed; bounded, not a proof.",
+         "Every sequence up to the length bound over a 32-path x {dir,file,delete} alphabet (dir/file records as add or modify records, delete records with and without file info) is executed against a fresh real Validator and compared (decision and rejection index) with a 15-line specification; ComparePath is compared with component-wise comparison and the strict-total-order axioms on all pairs/triples of an adversarial path alphabet. Held on the executions observed; bounded, not a proof.",
          "Trusts the specification in harness/cmd/vrun/c12.go and Go's path.Clean; unix separators only.", "DESIGN.md §5 C12"),
 }
 NOT_YET = "monitor for this property is designed in DESIGN.md §5 but not built yet in this round; not claimed until it runs"
